@@ -5,6 +5,9 @@ ROOT = os.path.dirname(os.path.dirname(os.path.abspath(__file__)))
 
 # id -> (level, technique, level text, level note, design ref)
 CHECKS = {
+ "C13": ("exploration", "crash/bounds monitor in child processes: hostile byte strings through generated parsers (reference model + in-parser bounds assertions) and through the shipped grammars generated at check time (tree rebuilt from tokens by slicing the rune sequence)",
+         "Empty, NUL, every class of invalid UTF-8, non-BMP, U+10FFFF, very long and deeply (<=200) nested buffers are parsed in child processes whose death is attributed through a pre-call log; no panic, offsets within the rune sequence, laminar post-order tokens, verdict/tokens equal to the reference (generated grammars) or printed tree equal to the tree rebuilt from tokens (peg, calculator, C, Java, fexl, long grammars); thorough tier builds with -race/checkptr.",
+         "Held on the inputs produced; nesting depth bounded at 200; Go is memory safe, so an out-of-range access shows as a panic.", "5/C13"),
  "C08": ("exploration", "process-boundary + compiler monitor: every generated file is compiled by the real Go compiler together with an API-use file and checked against go/format as a fixed point, under all eight option sets",
          "Grammars from all profiles plus a surface profile (imports, header comments, state, exotic characters, comments and '*/' in embedded Go code, terminal-free grammars, hundreds of rules; one >65535-rule-id grammar in the thorough tier) are generated with the real peg under the eight -inline/-switch/-noast combinations: exit 0, silent, compiles, gofmt fixed point.",
          "Held on the grammars produced; user code in the grammar is valid Go by construction; imports are used by the parser state.", "5/C08"),
